@@ -218,3 +218,105 @@ func TestCodecStream(t *testing.T) {
 	theT = t
 	vfx.Check(t, genStreamCase, checkStream)
 }
+
+// ---- several streams whose headers are removed before any payload is read ----------------
+//
+// A node serves many inbound streams at once; the header of one stream is removed while the payload of another is
+// still waiting to be read. Whatever the order, every stream must hand back its own label and its own payload.
+
+type InterCase struct {
+	Streams []StreamCase
+	Order   []int // order in which the payloads are read after all headers were removed
+}
+
+func checkInterleaved(c InterCase) (res vfx.Result) {
+	synctest.Test(theT, func(t *testing.T) { res = checkInterleavedIn(c) })
+	return
+}
+
+func checkInterleavedIn(c InterCase) (res vfx.Result) {
+	res.Err = vfx.Guard(func() error {
+		net := simnet.New(1)
+		net.SetRecord(false)
+		type end struct{ a, b *simnet.Conn }
+		var ends []end
+		for _, sc := range c.Streams {
+			chunks := sc.Chunks
+			v := simnet.StreamVerdict{CutAB: -1, CutBA: -1, Latency: time.Duration(sc.LatUs) * time.Microsecond}
+			if len(chunks) > 0 {
+				v.Chunk = func(i int) int { return chunks[i%len(chunks)] }
+			}
+			a, b := net.Pipe(v)
+			defer a.Close()
+			defer b.Close()
+			ends = append(ends, end{a, b})
+			sc := sc
+			go func() {
+				if err := memberlist.AddLabelHeaderToStream(a, string(sc.Label)); err == nil {
+					_, _ = a.Write(sc.Payload)
+				}
+				a.CloseWrite()
+			}()
+		}
+		time.Sleep(50 * time.Millisecond) // everything written has arrived and is buffered
+		synctest.Wait()
+		conns := make([]io.Reader, len(ends))
+		for i, e := range ends {
+			_ = e.b.SetReadDeadline(time.Now().Add(10 * time.Second))
+			conn, got, err := memberlist.RemoveLabelHeaderFromStream(e.b)
+			if err != nil {
+				return fmt.Errorf("stream %d: RemoveLabelHeaderFromStream: %v", i, err)
+			}
+			if got != string(c.Streams[i].Label) {
+				return fmt.Errorf("stream %d: label %q -> %q", i, c.Streams[i].Label, got)
+			}
+			conns[i] = conn
+		}
+		for _, i := range c.Order {
+			rest, err := io.ReadAll(conns[i])
+			if err != nil {
+				return fmt.Errorf("stream %d: reading the rest: %v", i, err)
+			}
+			if want := c.Streams[i].Payload; !bytes.Equal(rest, want) {
+				return fmt.Errorf("stream %d of %d (label %d bytes): its payload changed while the headers of the other streams were being removed: sent %d bytes, got %d bytes, first difference at %d (read order %v)",
+					i, len(c.Streams), len(c.Streams[i].Label), len(want), len(rest), firstDiff(rest, want), c.Order)
+			}
+		}
+		res.NonTrivial = len(c.Streams) >= 2
+		return nil
+	})
+	res.Labels = append(res.Labels, fmt.Sprintf("streams:%d", len(c.Streams)))
+	return
+}
+
+func TestCodecStreamInterleaved(t *testing.T) {
+	theT = t
+	vfx.Check(t, func(t *rapid.T) InterCase {
+		n := rapid.IntRange(2, 4).Draw(t, "nstreams")
+		var c InterCase
+		for i := 0; i < n; i++ {
+			lab := genLabel(t)
+			if len(lab) > 255 {
+				lab = lab[:255]
+			}
+			sc := StreamCase{Label: lab, Payload: genPayload(t), LatUs: rapid.SampledFrom([]int{0, 200}).Draw(t, "lat")}
+			if len(sc.Payload) > 0 && sc.Payload[0] == 244 && len(sc.Label) == 0 {
+				sc.Payload[0] = 0 // an unlabelled stream never starts with the label magic (message types are < 14)
+			}
+			if rapid.IntRange(0, 2).Draw(t, "frag") == 0 {
+				sc.Chunks = rapid.SliceOfN(rapid.SampledFrom([]int{1, 2, 3, 7, 100, 4096}), 1, 4).Draw(t, "chunks")
+			}
+			c.Streams = append(c.Streams, sc)
+		}
+		c.Order = rapid.Permutation(seq(n)).Draw(t, "order")
+		return c
+	}, checkInterleaved)
+}
+
+func seq(n int) []int {
+	s := make([]int, n)
+	for i := range s {
+		s[i] = i
+	}
+	return s
+}
